@@ -4,3 +4,4 @@ package influxql
 
 func verifNoteScan(n int) {}
 func verifNoteRead(n int) {}
+func verifNotePeek(p *Parser) {}
